@@ -16,7 +16,9 @@ EXTENDS Naturals, Sequences, FiniteSets, TLC, Json, IOUtils
 
 CONSTANTS P, NPar, ErFrom, TocFrom, NAtt, MaxFaults, FaultBy, MaxPings, UseSync, Closer
 
-Traces == JsonDeserialize(IOEnv.TRACE_FILE)
+\* the batch is read once (Init) and kept in a TLC register: re-evaluating JsonDeserialize at every reference
+\* costs milliseconds per event
+Traces == TLCGet(42)
 
 VARIABLES tid, l,
           words,        \* attempt -> sequence of callback names delivered with that attempt's URI
@@ -39,7 +41,8 @@ Atts == 0..NAtt
 mvars == <<words, act, nstim, bad, badAt>>
 svars == <<sg, sstk, swords, sact, snstim, sviol>>
 
-Init == /\ tid \in 1..Len(Traces)
+Init == /\ TLCSet(42, JsonDeserialize(IOEnv.TRACE_FILE))
+        /\ tid \in 1..Len(Traces)
         /\ l = 1
         /\ words = [a \in Atts |-> <<>>]
         /\ act = <<>>
@@ -122,10 +125,16 @@ Op == /\ Ev.e = "op"
       /\ Conform(Ev.st \in D!Threads /\ D!OpKind(Ev.st) = Ev.k /\ D!En(Ev.st, Ev.c), D!Commit(Ev.st, D!Eff(Ev.st, Ev.c)))
 
 \* ---- quiescence report and epilogue -------------------------------------------------------------------
-Spurious == \E a \in Atts : \/ Pr!Count(words[a], "disconnected") > nstim[a].close + nstim[a].fail
-                            \/ Pr!Count(words[a], "lost") > nstim[a].fail
+Spurious == \* over the whole history (a slow close_link may deliver its disconnected with the next attempt's URI)
+    LET RECURSIVE Sum(_, _)
+        Sum(f, S) == IF S = {} THEN 0 ELSE LET x == CHOOSE x \in S : TRUE IN f[x] + Sum(f, S \ {x})
+        nd == [a \in Atts |-> Pr!Count(words[a], "disconnected")]
+        nl == [a \in Atts |-> Pr!Count(words[a], "lost")]
+        nc == [a \in Atts |-> nstim[a].close + nstim[a].fail]
+        nf == [a \in Atts |-> nstim[a].fail]
+    IN Sum(nd, Atts) > Sum(nc, Atts) \/ Sum(nl, Atts) > Sum(nf, Atts)
 Quiet == /\ Ev.e = "quiet"
-         /\ Fail(LET c == Pr!QuietClause(T.q) IN
+         /\ Fail(LET c == Pr!QuietClause(T.q, nstim[AttOf(T.n)].close + nstim[AttOf(T.n)].fail > 0) IN
                  IF c # "ok" THEN c ELSE IF Spurious THEN "SpuriousDisconnected" ELSE "ok")
          /\ UNCHANGED <<words, act, nstim>>
          /\ Skip
